@@ -40,8 +40,8 @@ PROPS = {
         "text": "chunk encode/decode exact inverses (proved); raw items compared chunk for chunk",
     },
     "C18": {
-        "lean": ["PnaVerif.Props.Consts", "PnaVerif.Props.C18"],
-        "families": ["chunk", "entry", "roundtrip", "split", "edit"],
+        "lean": ["PnaVerif.Props.Consts", "PnaVerif.Props.C18", "PnaVerif.Props.C18ChunkList"],
+        "families": ["chunk", "entry", "roundtrip", "split", "edit", "chunk-list"],
         "cli": True,
         "ops": {"edit": []},
         "trusted": COMMON_TRUST,
